@@ -299,6 +299,10 @@ class VerticaCreateQueryBuilder(CreateQueryBuilder):
 
         self._preserve_rows = True
 
+    def unlogged(self) -> "VerticaCreateQueryBuilder":
+        # Vertica has no UNLOGGED tables; the flag used to be accepted and silently dropped from the statement
+        raise AttributeError("'Query' object has no attribute unlogged")
+
     def _create_table_sql(self, **kwargs: Any) -> str:
         return "CREATE {local}{temporary}TABLE {if_not_exists}{table}".format(
             local="LOCAL " if self._local else "",
